@@ -61,6 +61,8 @@ pub fn runs_per_program(prop: &str, tier: &str) -> u64 {
 pub fn gen_entry(prop: &str, seed: u64, idx: usize, attempt: u64) -> Vec<(String, Program)> {
     let mut sim = Sim::seeded(mix(&[seed, fnv_str("e3_ticksim/corpus"), fnv_str(prop), idx as u64, attempt]));
     match prop {
+        // 1 program in 8 of the C22 corpus: *_no_replay operators pull- vs push-side, compared pairwise
+        "C22" if idx % 8 == 5 => e3_core::pgen::gen_no_replay_pair(&mut sim, (idx / 8) % 2 == 0),
         "C22" => {
             let base = e3_core::pgen::gen_free(&mut sim, &e3_core::pgen::GenCfg::free());
             let mut v = vec![("base".to_string(), base.clone())];
